@@ -98,6 +98,7 @@ pub open spec fn rollback_frame(f: LinkFrame, inner: SenderInner, txn_id: Transa
 }
 
 //@@ fn file=fe2o3-amqp/src/transaction/mod.rs name=rollback_on_drop
+//@@ shape loops=loop
 //@@ param inner : &mut SenderInner
 //@@ attr #[verifier::loop_isolation(false)]
 //@@ subst `let message = Message::builder().value(discharge).build(); let mut payload = BytesMut::new(); let mut serializer = Serializer::from((&mut payload).writer()); if let Err(_error) = Serializable(message).serialize(&mut serializer) { return; } let payload = payload.freeze();` => `let payload = match encode_discharge(&discharge) { Ok(p) => p, Err(_e) => return };` rule=R9
